@@ -871,6 +871,7 @@ func runC14(c *core.Ctx) {
 		if lay := layouts["default/"]; lay != nil {
 			env.truncation(sp, lay)
 			env.readAtFaults(sp, lay)
+			env.copyTruncated(sp, lay)
 		}
 		if si <= 2 {
 			env.pageBufferFaults(sp)
@@ -1137,6 +1138,89 @@ func (env *c14Env) truncation(sp *c14Spec, lay *c14Layout) {
 	c.Note("file %s (%d bytes): %d prefixes, %d of them passed the magic checks (planted trailers) and were rejected later", sp.Name, n, len(ls), pastMagic)
 	if skipped > 0 {
 		c.Note("file %s: the trailing magic check does not reject; %d prefixes whose length field exceeds 16 MiB were skipped (memory cap)", sp.Name, skipped)
+	}
+}
+
+// copyTruncated: the source of Writer.WriteRowGroup loses its tail after it
+// was opened (short reads with io.EOF); the destination is written with the
+// options of the source (verbatim copy of the column chunks) and with another
+// codec (re-encode / row path).  Either a call reports an error, or the
+// output holds exactly the rows of the source.
+func (env *c14Env) copyTruncated(sp *c14Spec, lay *c14Layout) {
+	c := env.c
+	if sp.Enc != 0 {
+		return
+	}
+	ref := lay.ref
+	n := len(ref)
+	var want []c14Row
+	for _, g := range sp.rows() {
+		want = append(want, g...)
+	}
+	var ts []int
+	for _, b := range lay.bounds {
+		ts = append(ts, b-1, b+1)
+	}
+	for t := 4 + c.Rng.Intn(97); t < n; t += c.N(197, 41) {
+		ts = append(ts, t)
+	}
+	sort.Ints(ts)
+	for _, same := range []bool{true, false} {
+		dsp := *sp
+		if !same {
+			if dsp.Codec == "snappy" {
+				dsp.Codec = ""
+			} else {
+				dsp.Codec = "snappy"
+			}
+		}
+		for i, t := range ts {
+			if i > 0 && ts[i-1] == t || t < 0 || t >= n {
+				continue
+			}
+			r := &c14FaultyReaderAt{data: ref, at: -1, limit: -1}
+			rp := c14Replay{What: "copy-truncated", Spec: *sp, Call: -1, Mode: map[bool]string{true: "same-options", false: "other-codec"}[same], L: t}
+			var out bytes.Buffer
+			var werr error
+			panicked := ""
+			func() {
+				defer func() {
+					if x := recover(); x != nil {
+						panicked = fmt.Sprint(x)
+					}
+				}()
+				f, err := parquet.OpenFile(r, int64(n))
+				if err != nil {
+					werr = err
+					return
+				}
+				r.limit = t
+				w := parquet.NewGenericWriter[c14Row](&out, env.options(&dsp, c14Cfg{Buf: -1, Pool: "default"})...)
+				for _, rg := range f.RowGroups() {
+					if _, err := w.WriteRowGroup(rg); err != nil && werr == nil {
+						werr = err
+					}
+				}
+				if err := w.Close(); err != nil && werr == nil {
+					werr = err
+				}
+			}()
+			outcome := "error"
+			switch {
+			case panicked != "":
+				c.Violation("copy-truncated-panic", fmt.Sprintf("file %s copied with WriteRowGroup (%s) while only the first %d of %d bytes of the source can be read: panic %s", sp.Name, rp.Mode, t, n, core.Trunc(panicked, 200)), rp)
+			case werr == nil:
+				outcome = "complete"
+				rows, _, err, p := env.readAll(&dsp, bytes.NewReader(out.Bytes()), int64(out.Len()))
+				if err != nil || p != "" || !c14RowsEqual(rows, want) {
+					c.Violation("copy-truncated-silent", fmt.Sprintf("file %s copied with WriteRowGroup (%s) while only the first %d of %d bytes of the source can be read: WriteRowGroup and Close returned nil, the output (%d bytes) reads back %d of %d rows (err=%v %s)", sp.Name, rp.Mode, t, n, out.Len(), len(rows), len(want), err, p), rp)
+				}
+			}
+			if r.hits == 0 {
+				outcome = "not-reached"
+			}
+			c.Case("copy-truncated/"+rp.Mode+"/"+outcome, fmt.Sprintf("%s|%v|%d", sp.Name, same, t), r.hits > 0)
+		}
 	}
 }
 
@@ -1638,6 +1722,13 @@ func replayC14(c *core.Ctx, raw json.RawMessage) {
 			return
 		}
 		env.readAtFaults(sp, lay)
+	case "copy-truncated":
+		lay, err := env.layout(sp, c14Cfg{Buf: -1, Pool: "default"})
+		if err != nil {
+			c.Mismatch("corr:C14.layout", sp.Name, err.Error(), "-", rp)
+			return
+		}
+		env.copyTruncated(sp, lay)
 	case "pagebuf":
 		env.pageBufferFaults(sp)
 	}
